@@ -44,6 +44,17 @@ TSilent == /\ l <= Len(RTrace)
               \/ OMCheck \/ OMConnect \/ OMCopy \/ ForceReleaseLocal
            /\ Silent
 
+\* several units' traces are concatenated
+TReset == /\ Has("reset")
+          /\ link' = TRUE /\ flaps' = 0
+          /\ est' = "none" /\ eout' = 0 /\ ecount' = 0 /\ ehist' = {} /\ ecan' = FALSE /\ stdinDone' = FALSE
+          /\ known' = TRUE /\ rid' = 0 /\ started' = FALSE /\ lcan' = FALSE /\ lrel' = FALSE /\ st' = "P" /\ sz' = 0 /\ lout' = 0 /\ dup' = FALSE
+          /\ up' = TRUE /\ crashes' = 0 /\ m' = "connect" /\ mop' = "submit" /\ bg' = FALSE
+          /\ sm' = "off" /\ smfr' = FALSE /\ om' = "off" /\ omconn' = FALSE
+          /\ ops' = ClientOps /\ ans' = [o \in {"submit", "cancel", "release", "frelease"} |-> "none"]
+          /\ gaveUp' = FALSE /\ reconn' = FALSE /\ retried' = FALSE /\ relGone' = FALSE /\ bad' = {}
+          /\ Consume
+
 TStart     == Has("rw_start") /\ (E.start \/ started) /\ UNCHANGED vars /\ Consume
 TSubmitted == Has("rw_submitted") /\ link /\ SubmitSend /\ Consume
 TStarted   == Has("rw_started") /\ StoreStarted /\ Consume
@@ -69,7 +80,7 @@ TLocalRelease == Has("rw_local_release") /\ ~known /\ UNCHANGED vars /\ Consume
 TKill    == Has("env_kill") /\ CrashS /\ Consume
 TRestart == Has("env_restart") /\ RestartS /\ Consume
 
-TNext == TSilent \/ TStart \/ TSubmitted \/ TStarted \/ TBackground \/ TGaveUp \/ TPoll \/ TOp \/ TRequest \/ TLocalRelease \/ TKill \/ TRestart
+TNext == TReset \/ TSilent \/ TStart \/ TSubmitted \/ TStarted \/ TBackground \/ TGaveUp \/ TPoll \/ TOp \/ TRequest \/ TLocalRelease \/ TKill \/ TRestart
 TSpec == TInit /\ [][TNext]_<<vars, l>>
 
 RTraceAccepted == TLCGet(42) = Len(RTrace) + 1
